@@ -180,6 +180,44 @@ func variadic(prefix string, rest ...int) []int {
 `,
 }
 
+// A host without any import declaration (adding the first import shifts
+// every top-level declaration).
+const extraHostNoImports = `// Package plain has no imports.
+package plain
+
+var first = 1
+
+func one() string {
+	return "1"
+}
+
+type Box struct {
+	V int
+}
+
+var second, third = 2, 3
+
+func (b *Box) Get() int {
+	if b == nil {
+		return first
+	}
+	return b.V + second
+}
+
+const (
+	X = iota
+	Y
+)
+
+func two(a, b int) (string, error) {
+	s := one()
+	for i := a; i < b; i++ {
+		s += one()
+	}
+	return s, nil
+}
+`
+
 func loadHosts() []*hostInfo {
 	hostsOnce.Do(func() {
 		add := func(name string, src []byte) {
@@ -203,6 +241,7 @@ func loadHosts() []*hostInfo {
 		for i, s := range extraHosts {
 			add(fmt.Sprintf("extra%d.go", i), []byte(s))
 		}
+		add("extra-noimports.go", []byte(extraHostNoImports))
 		for _, f := range corpus.GoFiles() {
 			add(f.Name, f.Src)
 		}
@@ -220,6 +259,7 @@ type modelOpts struct {
 	MinPlants, MaxPlants   int
 	MinMutants, MaxMutants int
 	AllMinusThenPlus       bool // sometimes use the minus-block / plus-block layout
+	AddImport              int  // add a "+import" line to the change in 1 of N cases (0: never)
 }
 
 // genModelCase draws a case; nil means the drawn combination could not be
@@ -233,6 +273,18 @@ func genModelCase(t *rapid.T, o modelOpts) (cs *modelCase, why string) {
 		}
 	}
 	h := pool[rapid.IntRange(0, len(pool)-1).Draw(t, "host")]
+	if rapid.IntRange(0, 7).Draw(t, "extraHost") == 0 {
+		// the hand-written hosts carry constructs that are rare in the sample
+		var extras []*hostInfo
+		for _, x := range pool {
+			if strings.HasPrefix(x.name, "extra") {
+				extras = append(extras, x)
+			}
+		}
+		if len(extras) > 0 {
+			h = extras[rapid.IntRange(0, len(extras)-1).Draw(t, "whichExtra")]
+		}
+	}
 	kinds := o.Kinds
 	if len(kinds) == 0 {
 		kinds = []ref.PKind{ref.PExpr, ref.PExpr, ref.PStmts, ref.PStmts, ref.PDecl}
@@ -245,6 +297,12 @@ func genModelCase(t *rapid.T, o modelOpts) (cs *modelCase, why string) {
 	root := roots[rapid.IntRange(0, len(roots)-1).Draw(t, "root")]
 	m := gen.Mine(t, h.fset, root, o.Mine)
 	ro := gen.RenderOpts{}
+	if o.AddImport > 0 && rapid.IntRange(0, o.AddImport-1).Draw(t, "addImport") == 0 {
+		ro.ImportsPlus = []ref.Import{[]ref.Import{{Path: "context"}, {Path: "example.com/added/pkg"}, {Name: "addq", Path: "example.com/added/named"}, {Path: "fmt"}, {Name: "_", Path: "embed"}}[rapid.IntRange(0, 4).Draw(t, "whichImport")]}
+		if rapid.IntRange(0, 3).Draw(t, "twoImports") == 0 {
+			ro.ImportsPlus = append(ro.ImportsPlus, ref.Import{Path: "example.com/added/second"})
+		}
+	}
 	if o.AllMinusThenPlus && rapid.IntRange(0, 3).Draw(t, "blockLayout") == 0 {
 		ro.AllMinusThenPlus = true
 	}
@@ -469,14 +527,32 @@ func evalModel(cs *modelCase) *verdict {
 	d := ref.FirstDifference(want, got, ref.Output)
 	hasDots := v.MinusDots > 0
 	if d == nil {
-		// imports: untouched unless the patch mentions them
-		if len(cs.Spec.ImportsMinus)+len(cs.Spec.ImportsPlus) == 0 {
+		if len(cs.Spec.ImportsMinus) == 0 {
+			// Imports are untouched unless the patch mentions them; a '+'
+			// import is present afterwards (once) if the change applied.
 			wi, gi := importMultiset(hostTree), importMultiset(actual)
+			if res.Applies {
+				have := map[string]bool{}
+				for _, x := range wi {
+					have[x] = true
+				}
+				for _, ip := range cs.Spec.ImportsPlus {
+					key := ip.Name + " " + ip.Path
+					if !have[key] {
+						wi = append(wi, key)
+						have[key] = true
+					}
+				}
+				sort.Strings(wi)
+			}
 			if strings.Join(wi, "\n") != strings.Join(gi, "\n") {
 				v.Status = "discrepancy"
 				v.Class = "imports-changed"
-				v.Props = []string{"C05", "C11"}
-				v.Msg = fmt.Sprintf("imports changed although the patch mentions none:\n  before: %v\n  after:  %v", wi, gi)
+				v.Props = []string{"C11"}
+				if len(cs.Spec.ImportsPlus) == 0 {
+					v.Props = append(v.Props, "C05")
+				}
+				v.Msg = fmt.Sprintf("imports differ from what the patch dictates:\n  expected: %v\n  actual:   %v", wi, gi)
 				return v
 			}
 		}
@@ -600,7 +676,43 @@ func evalModel(cs *modelCase) *verdict {
 			v.Props = []string{"C05"}
 		}
 	}
+	// Independent of where the first difference was found: a top-level
+	// declaration in which the reference rewrote nothing must still be in the
+	// output (C05: nothing outside the rewritten fragments is removed,
+	// duplicated or altered).
+	if lost := lostDeclarations(ref.StripImports(hostTree), want, got); lost != "" {
+		if !v.contradicts("C05") {
+			v.Props = append(v.Props, "C05")
+		}
+		v.Msg += "\nuntouched top-level declaration missing from the output: " + lost
+	}
 	return v
+}
+
+// lostDeclarations returns a description of the first top-level declaration
+// that the reference left untouched and that has no equal in the output.
+func lostDeclarations(host, want, got *ref.Tree) string {
+	hd, wd, gd := host.Field("Decls"), want.Field("Decls"), got.Field("Decls")
+	if hd == nil || wd == nil || gd == nil || hd.Kind != ref.KList || wd.Kind != ref.KList || gd.Kind != ref.KList {
+		return ""
+	}
+	used := make([]bool, len(gd.Kids))
+	for i, d := range hd.Kids {
+		if i >= len(wd.Kids) || !ref.Equal(wd.Kids[i], d, ref.Output) {
+			continue // the reference rewrites something inside it (or declaration patterns changed the list)
+		}
+		found := false
+		for j, g := range gd.Kids {
+			if !used[j] && ref.Equal(d, g, ref.Output) {
+				used[j], found = true, true
+				break
+			}
+		}
+		if !found {
+			return ref.Brief(d)
+		}
+	}
+	return ""
 }
 
 // plantIsInstance reports whether a planted text contains an instance of
